@@ -66,7 +66,7 @@ Proof.
 Qed.
 
 (** ** PostgreSQL *)
-Lemma pg_refl_laws : refl_laws pg_driver.
+Lemma pg_refl_laws_ns ns : refl_laws (pg_driver_ns ns).
 Proof.
   constructor; simpl.
   - intros i. unfold pg_index_attr_changed. rewrite !str_eqb_refl. simpl.
@@ -81,10 +81,13 @@ Definition pg_known_class (k : N) : bool :=
   pg_format_class k || N.eqb k PG_UDT || N.eqb k PG_COMPOSITE || N.eqb k PG_DOMAIN || N.eqb k PG_ENUM
   || N.eqb k PG_CURRENCY || N.eqb k PG_XML || N.eqb k PG_ARRAY.
 
-Lemma pg_type_changed_refl c :
-  c_class c <> 0%N -> pg_known_class (c_class c) = true -> pg_type_changed c c = Some false.
+Lemma pg_refl_laws : refl_laws pg_driver.
+Proof. exact (pg_refl_laws_ns []). Qed.
+
+Lemma pg_type_changed_refl ns c :
+  c_class c <> 0%N -> pg_known_class (c_class c) = true -> pg_type_changed_ns ns c c = Some false.
 Proof.
-  intros H K. unfold pg_type_changed. apply N.eqb_neq in H. rewrite H. simpl. rewrite N.eqb_refl. simpl.
+  intros H K. unfold pg_type_changed_ns. apply N.eqb_neq in H. rewrite H. simpl. rewrite N.eqb_refl. simpl.
   rewrite str_eqb_refl. simpl. unfold pg_known_class in K.
   destruct (pg_format_class (c_class c)); [reflexivity|].
   destruct (N.eqb (c_class c) PG_UDT); [reflexivity|].
@@ -96,10 +99,10 @@ Proof.
   simpl in *. rewrite K. rewrite andb_false_r. reflexivity.
 Qed.
 
-Lemma pg_column_change_refl t c :
-  c_class c <> 0%N -> pg_known_class (c_class c) = true -> pg_column_change t c c = Some 0%N.
+Lemma pg_column_change_refl ns t c :
+  c_class c <> 0%N -> pg_known_class (c_class c) = true -> pg_column_change_ns ns t c c = Some 0%N.
 Proof.
-  intros H K. unfold pg_column_change. rewrite (pg_type_changed_refl c H K).
+  intros H K. unfold pg_column_change_ns. rewrite (pg_type_changed_refl ns c H K).
   assert (G : pg_generated_changed c c = Some false).
   { unfold pg_generated_changed. destruct (c_gen c) as [[x ty]|]; [rewrite str_eqb_refl|]; reflexivity. }
   rewrite G.
@@ -114,7 +117,7 @@ Definition pg_dwf (t : table) : Prop :=
   (forall c, In c (t_cols t) -> c_class c <> 0%N /\ pg_known_class (c_class c) = true) /\
   named_unique (t_checks t).
 
-Lemma pg_sim_laws : sim_laws pg_driver pg_dwf.
+Lemma pg_sim_laws_ns ns : sim_laws (pg_driver_ns ns) pg_dwf.
 Proof.
   constructor; simpl.
   - intros t c [H _] Hc. destruct (H c Hc). apply pg_column_change_refl; assumption.
@@ -128,6 +131,9 @@ Proof.
     + intros x Hx. eapply Permutation_in; [apply Permutation_sym|]; eauto.
   - reflexivity.
 Qed.
+
+Lemma pg_sim_laws : sim_laws pg_driver pg_dwf.
+Proof. exact (pg_sim_laws_ns []). Qed.
 
 (** ** exact ChangeKind bits of the MySQL / PostgreSQL ColumnChange *)
 
@@ -185,9 +191,9 @@ Proof.
 Qed.
 
 (** PostgreSQL bits *)
-Lemma pg_column_bits t c c' tc gc :
-  pg_type_changed c c' = Some tc -> pg_generated_changed c c' = Some gc ->
-  pg_column_change t c c' =
+Lemma pg_column_bits ns t c c' tc gc :
+  pg_type_changed_ns ns c c' = Some tc -> pg_generated_changed c c' = Some gc ->
+  pg_column_change_ns ns t c c' =
   Some (N.lor (N.lor (N.lor (N.lor (N.lor
           (comment_change (c_comment c) (c_comment c'))
           (bit (negb (Bool.eqb (c_null c) (c_null c'))) ChangeNull))
@@ -195,17 +201,17 @@ Lemma pg_column_bits t c c' tc gc :
           (bit (pg_default_changed c c') ChangeDefault))
           (bit (pg_identity_changed c c') ChangeAttr))
           (bit gc ChangeGenerated)).
-Proof. intros T G. unfold pg_column_change. rewrite T, G. reflexivity. Qed.
+Proof. intros T G. unfold pg_column_change_ns. rewrite T, G. reflexivity. Qed.
 
 (** the type bit: within a class other than user-defined types and arrays it is set exactly
     when the type identity differs; across classes always *)
-Lemma pg_type_changed_exact c c' :
+Lemma pg_type_changed_exact ns c c' :
   c_class c <> 0%N -> c_class c' <> 0%N -> pg_known_class (c_class c) = true ->
   c_class c <> PG_UDT -> c_class c <> PG_ARRAY ->
-  pg_type_changed c c' =
+  pg_type_changed_ns ns c c' =
   Some (negb (N.eqb (c_class c) (c_class c')) || negb (str_eqb (fld 0 (c_T c)) (fld 0 (c_T c')))).
 Proof.
-  intros H H' K U A. unfold pg_type_changed. apply N.eqb_neq in H, H', U, A. rewrite H, H'. simpl.
+  intros H H' K U A. unfold pg_type_changed_ns. apply N.eqb_neq in H, H', U, A. rewrite H, H'. simpl.
   destruct (N.eqb (c_class c) (c_class c')); simpl; [|reflexivity].
   unfold pg_known_class in K. rewrite U, A in K.
   destruct (pg_format_class (c_class c)); [reflexivity|]. rewrite U.
@@ -222,3 +228,17 @@ Definition w_udt_col (T : str) : column := mkColumn [99]%N PG_UDT T false None N
 Lemma w_udt_unreported t :
   pg_column_change t (w_udt_col [99;105;116;101;120;116]%N) (w_udt_col [108;116;114;101;101]%N) = Some 0%N.
 Proof. vm_compute. reflexivity. Qed.
+
+(** with a schema scope a change of the user-defined type is reported exactly when the names
+    differ after the scope's qualifier is cut off *)
+Lemma pg_udt_type_changed_ns ns c c' :
+  ns <> [] -> c_class c = PG_UDT -> c_class c' = PG_UDT ->
+  pg_type_changed_ns ns c c' =
+  Some (negb (str_eqb (trim_schema ns (fld 0 (c_T c'))) (trim_schema ns (fld 0 (c_T c))))).
+Proof.
+  intros N K K'. unfold pg_type_changed_ns. rewrite K, K'. simpl.
+  assert (E : str_eqb ns [] = false) by (apply str_eqb_neq; exact N). rewrite E. simpl.
+  destruct (str_eqb (fld 0 (c_T c)) (fld 0 (c_T c'))) eqn:D; simpl.
+  - apply str_eqb_eq in D. rewrite D, str_eqb_refl. reflexivity.
+  - reflexivity.
+Qed.
